@@ -5,6 +5,7 @@ import ast
 
 from sa.astx import call_name, dotted, src, walk_local
 from sa.selftest import Mutant, Silent
+from sa.props._lib_d import Views
 from sa.source import class_assigns
 from sa.props._lib_d import (NONNULL, call_nodes, calls_with, const_value_is, covers, handler_names, implied,
                              local_def, must_pass_under, path_under, peval, reach_under, self_assigns, succ_of,
@@ -43,6 +44,39 @@ ASSUMPTIONS = [
 
 Q = "twisted.internet."
 
+# methods the rules are written against; any other private method of these classes is a helper introduced later and is analysed as
+# if inlined at its call sites (sa.props._lib_d.Inliner / Views)
+KNOWN = {'internet/asyncioreactor.py': {'AsyncioSelectorReactor': ['__init__', '_moveCallLaterSooner', '_onTimer', '_readOrWrite', '_reschedule', '_unregisterFDInAsyncio', 'addReader',
+                                                           'addWriter', 'callFromThread', 'callLater', 'crash', 'getReaders', 'getWriters', 'iterate', 'removeAll', 'removeReader',
+                                                           'removeWriter', 'run', 'stop']},
+ 'internet/epollreactor.py': {'EPollReactor': ['__init__', '_add', '_remove', 'addReader', 'addWriter', 'doPoll', 'getReaders', 'getWriters', 'removeAll', 'removeReader',
+                                               'removeWriter']},
+ 'internet/pollreactor.py': {'PollReactor': ['__init__', '_dictRemove', '_updateRegistration', 'addReader', 'addWriter', 'doPoll', 'getReaders', 'getWriters', 'removeAll',
+                                             'removeReader', 'removeWriter']},
+ 'internet/posixbase.py': {'_DisconnectSelectableMixin': ['_disconnectSelectable'], '_PollLikeMixin': ['_doReadOrWrite']},
+ 'internet/selectreactor.py': {'SelectReactor': ['__init__', '_doReadOrWrite', '_preenDescriptors', 'addReader', 'addWriter', 'doSelect', 'getReaders', 'getWriters', 'removeAll',
+                                                 'removeReader', 'removeWriter']},
+ 'internet/tcp.py': {'Connection': ['__init__', '_closeWriteConnection', '_dataReceived', 'connectionLost', 'doRead', 'getHandle', 'getTcpKeepAlive', 'getTcpNoDelay', 'logPrefix',
+                                    'readConnectionLost', 'setTcpKeepAlive', 'setTcpNoDelay', 'writeSomeData'],
+                     '_AbortingMixin': ['abortConnection'],
+                     '_SocketCloser': ['_closeSocket']}}
+
+
+def _views(ctx):
+    v = ctx.__dict__.get("_views_d")
+    if v is None:
+        v = ctx.__dict__["_views_d"] = Views(ctx, KNOWN)
+    return v
+
+
+def _F(ctx, rel, qual):
+    return _views(ctx).f(rel, qual)
+
+
+def _M(ctx, rel, cls_name):
+    return _views(ctx).methods(rel, cls_name)
+
+
 # (module, qualified function, dotted prefix for constructs, minimum handler breadth)
 DISPATCH = [
     (SEL, "SelectReactor._doReadOrWrite", Q + "selectreactor.SelectReactor._doReadOrWrite", "BaseException"),
@@ -74,7 +108,7 @@ def _is_dispatch(call, aliases):
 
 
 def _check_dispatch(ctx, rel, qual, q, minimum):
-    f = ctx.func(rel, qual)
+    f = _F(ctx, rel, qual)
     g = ctx.cfg(f)
     aliases = _dispatch_aliases(f)
     sites = []
@@ -244,7 +278,7 @@ def check(ctx):
 
     with ctx.section("doSelect loop"):
         # ---- (2) the iteration loops ---------------------------------------------------------------------------------------------
-        f = ctx.func(SEL, "SelectReactor.doSelect")
+        f = _F(ctx, SEL, "SelectReactor.doSelect")
         g = ctx.cfg(f)
         q = Q + "selectreactor.SelectReactor.doSelect"
         drdw = {st.targets[0].id for st in walk_local(f) if isinstance(st, ast.Assign) and len(st.targets) == 1 and isinstance(st.targets[0], ast.Name)
@@ -281,7 +315,7 @@ def check(ctx):
     with ctx.section("doPoll loops"):
         # ---- doPoll loops
         for rel, cls, modq in ((POLL, "PollReactor", "pollreactor"), (EPOLL, "EPollReactor", "epollreactor")):
-            f = ctx.func(rel, f"{cls}.doPoll")
+            f = _F(ctx, rel, f"{cls}.doPoll")
             g = ctx.cfg(f)
             q = f"{Q}{modq}.{cls}.doPoll"
             drdw = {st.targets[0].id for st in walk_local(f) if isinstance(st, ast.Assign) and len(st.targets) == 1 and isinstance(st.targets[0], ast.Name)
@@ -305,7 +339,7 @@ def check(ctx):
 
     with ctx.section("event masks"):
         # event masks follow the read / write sets
-        f = ctx.func(POLL, "PollReactor._updateRegistration")
+        f = _F(ctx, POLL, "PollReactor._updateRegistration")
         g = ctx.cfg(f)
         q = Q + "pollreactor.PollReactor._updateRegistration"
         nmask = 0
@@ -335,14 +369,14 @@ def check(ctx):
                      "addWriter": ("_add", ["self._writes", "self._reads", "self._selectables", "EPOLLOUT", "EPOLLIN"]),
                      "removeWriter": ("_remove", ["self._writes", "self._reads", "self._selectables", "EPOLLOUT", "EPOLLIN"])}
         for name, (helper, want) in want_args.items():
-            m = ctx.func(EPOLL, f"EPollReactor.{name}")
+            m = _F(ctx, EPOLL, f"EPollReactor.{name}")
             calls = [x for x in walk_local(m) if isinstance(x, ast.Call) and call_name(x) == f"self.{helper}"]
             ctx.check(len(calls) == 1 and [src(a) for a in calls[0].args[1:]] == want, "masks/epoll-arguments", f"{Q}epollreactor.EPollReactor.{name}",
                       f"{name} does not call {helper}(x, {', '.join(want)}): primary/other set or event/anti-event are crossed")
 
     with ctx.section("_disconnectSelectable"):
         # ---- (3) _disconnectSelectable ----------------------------------------------------------------------------------------------
-        f = ctx.func(PB, "_DisconnectSelectableMixin._disconnectSelectable")
+        f = _F(ctx, PB, "_DisconnectSelectableMixin._disconnectSelectable")
         g = ctx.cfg(f)
         q = Q + "posixbase._DisconnectSelectableMixin._disconnectSelectable"
         sel = f.args.args[1].arg
@@ -405,7 +439,7 @@ def check(ctx):
 
     with ctx.section("tcp Connection.connectionLost"):
         # ---- (4) tcp.Connection -------------------------------------------------------------------------------------------------------
-        f = ctx.func(TCP, "Connection.connectionLost")
+        f = _F(ctx, TCP, "Connection.connectionLost")
         g = ctx.cfg(f)
         q = Q + "tcp.Connection.connectionLost"
         rparam = f.args.args[1].arg
@@ -453,7 +487,7 @@ def check(ctx):
 
     with ctx.section("tcp Connection._dataReceived"):
         # ---- tcp Connection._dataReceived
-        f = ctx.func(TCP, "Connection._dataReceived")
+        f = _F(ctx, TCP, "Connection._dataReceived")
         g = ctx.cfg(f)
         q = Q + "tcp.Connection._dataReceived"
         dparam = f.args.args[1].arg
@@ -477,7 +511,7 @@ def check(ctx):
 
     with ctx.section("tcp Connection.doRead"):
         # ---- tcp Connection.doRead
-        f = ctx.func(TCP, "Connection.doRead")
+        f = _F(ctx, TCP, "Connection.doRead")
         g = ctx.cfg(f)
         q = Q + "tcp.Connection.doRead"
         lost = [n.id for n in g.nodes if n.kind == "stmt" and isinstance(n.ast, ast.Return) and n.ast.value is not None and "CONNECTION_LOST" in src(n.ast.value)]
@@ -501,7 +535,7 @@ def check(ctx):
 
     with ctx.section("tcp Connection.writeSomeData"):
         # ---- tcp Connection.writeSomeData
-        f = ctx.func(TCP, "Connection.writeSomeData")
+        f = _F(ctx, TCP, "Connection.writeSomeData")
         g = ctx.cfg(f)
         q = Q + "tcp.Connection.writeSomeData"
         dparam = f.args.args[1].arg
@@ -542,7 +576,7 @@ def check(ctx):
 
     with ctx.section("tcp Connection._closeWriteConnection"):
         # ---- tcp Connection._closeWriteConnection
-        f = ctx.func(TCP, "Connection._closeWriteConnection")
+        f = _F(ctx, TCP, "Connection._closeWriteConnection")
         q = Q + "tcp.Connection._closeWriteConnection"
         sh = [x for x in walk_local(f) if isinstance(x, ast.Call) and call_name(x) == "self.socket.shutdown"]
         ctx.check(len(sh) == 1 and len(sh[0].args) == 1 and (const_value_is(sh[0].args[0], lambda v: v == 1) or src(sh[0].args[0]).endswith("SHUT_WR")),
@@ -551,7 +585,7 @@ def check(ctx):
 
     with ctx.section("tcp _closeSocket"):
         # ---- tcp _SocketCloser._closeSocket
-        f = ctx.func(TCP, "_SocketCloser._closeSocket")
+        f = _F(ctx, TCP, "_SocketCloser._closeSocket")
         g = ctx.cfg(f)
         q = Q + "tcp._SocketCloser._closeSocket"
         cl = call_nodes(g, "skt.close", "self.socket.close")
@@ -567,7 +601,7 @@ def check(ctx):
 
     with ctx.section("tcp abortConnection"):
         # ---- tcp _AbortingMixin.abortConnection
-        f = ctx.func(TCP, "_AbortingMixin.abortConnection")
+        f = _F(ctx, TCP, "_AbortingMixin.abortConnection")
         g = ctx.cfg(f)
         q = Q + "tcp._AbortingMixin.abortConnection"
         sched = [n for n, c in calls_with(g, "self.reactor.callLater") if any(src(a) == "self.connectionLost" for a in c.args)] + call_nodes(g, "self.connectionLost")
@@ -642,6 +676,9 @@ MUTANTS = [
            expect_rule="abort/once-guard"),
     Mutant("epoll-remove-writer-crossed", EPOLL, "            writer, self._writes, self._reads, self._selectables, EPOLLOUT, EPOLLIN\n        )\n\n    def removeAll",
            "            writer, self._writes, self._reads, self._selectables, EPOLLIN, EPOLLOUT\n        )\n\n    def removeAll", expect_rule="masks/epoll-arguments"),
+    Mutant("tcp-helper-deletes-guard-after-callout", TCP, "        protocol = self.protocol\n        del self.protocol\n        del self.socket\n        del self.fileno\n        protocol.connectionLost(reason)\n",
+           "        protocol = self.protocol\n        protocol.connectionLost(reason)\n        self._forget()\n\n    def _forget(self):\n        del self.protocol\n        del self.socket\n        del self.fileno\n",
+           expect_rule="tcp-lost/guard-cleared-before-callout"),
     Mutant("poll-stale-selectable-dispatched", POLL, "            except KeyError:\n                # Handles the infrequent case where one selectable's\n                # handler disconnects another.\n                continue\n",
            "            except KeyError:\n                pass\n", expect_rule="loop/unregistered-skipped"),
 ]
@@ -658,5 +695,9 @@ SILENT = [
     Silent("disconnect-else-flattened", PB,
            "        else:\n            self.removeWriter(selectable)\n            selectable.connectionLost(failure.Failure(why))\n\n\n@implementer(IReactorTCP",
            "        else:\n            reason = failure.Failure(why)\n            self.removeWriter(selectable)\n            selectable.connectionLost(failure.Failure(why))\n\n\n@implementer(IReactorTCP"),
+    Silent("tcp-lost-detach-in-helper", TCP, "        protocol = self.protocol\n        del self.protocol\n        del self.socket\n        del self.fileno\n        protocol.connectionLost(reason)\n",
+           "        protocol = self._forget()\n        protocol.connectionLost(reason)\n\n    def _forget(self):\n        protocol = self.protocol\n        del self.protocol\n        del self.socket\n        del self.fileno\n        return protocol\n"),
+    Silent("select-dispatch-guard-clause", SEL, "        if why:\n            self._disconnectSelectable(selectable, why, method == \"doRead\")",
+           "        if not why:\n            return\n        wasRead = method == \"doRead\"\n        self._disconnectSelectable(selectable, why, wasRead)"),
     Silent("polllike-locals-renamed", PB, "                    if not why and event & self._POLL_OUT:", "                    if (not why) and (event & self._POLL_OUT):"),
 ]
